@@ -880,6 +880,10 @@ func (c *c40Case) stepData(s c40Step) {
 			df := &bfe_spdy.DataFrame{StreamId: bfe_spdy.StreamId(st.id), Data: patBytes(st.id, int(st.sent), int(n), 0)}
 			if fin {
 				df.Flags = bfe_spdy.DataFlagFin
+				st.clientFin = true
+				if st.serverFin {
+					c.closeStream(st)
+				}
 			}
 			c.write(df)
 			return
@@ -1496,7 +1500,6 @@ func c40Run(tb ev.TB, rec *ev.Rec, script []c40Step) {
 	if c.incon != "" {
 		classes = append(classes, "inconclusive")
 		rec.Excluded("inconclusive: " + c.incon)
-		fmt.Printf("C40-INCONCLUSIVE %s: %v\n", c.incon, c.steps)
 	}
 	if c.goAway {
 		classes = append(classes, "ended-by-goaway")
